@@ -313,13 +313,14 @@ func (c *certificateV1) Copy() Certificate {
 }
 
 func (c *certificateV1) fromTBSCertificate(t *TBSCertificate) error {
+	// The wire format carries whole seconds: keep exactly what will decode back
 	c.details = detailsV1{
 		name:           t.Name,
 		networks:       t.Networks,
 		unsafeNetworks: t.UnsafeNetworks,
 		groups:         t.Groups,
-		notBefore:      t.NotBefore,
-		notAfter:       t.NotAfter,
+		notBefore:      time.Unix(t.NotBefore.Unix(), 0),
+		notAfter:       time.Unix(t.NotAfter.Unix(), 0),
 		publicKey:      t.PublicKey,
 		isCA:           t.IsCA,
 		curve:          t.Curve,
